@@ -49,7 +49,8 @@ PROPS = {
     "C01": {
         "gen": gen_c01,
         "proj": {},
-        "kinds": {"vec-semantics"},
+        # "identical to Vec" includes which elements are destroyed: the ownership oracles judge too
+        "kinds": {"vec-semantics", "double-drop", "drop-while-visible", "duplicate-visible", "drop-accounting"},
         "rule": "a case builds a vector state (len 0..L) through a mix of push paths, applies one operation instance "
                 "(every index 0..=len+1 x value source x value sink x erased/typed path) or a long random history over "
                 "three vectors; distinct = distinct script text; non-trivial = the operation under test acts on or "
@@ -75,7 +76,7 @@ def gen_c02(tier, seed):
     return cases
 
 PROPS["C02"] = {
-    "gen": gen_c02, "proj": {}, "kinds": {"vec-semantics"},
+    "gen": gen_c02, "proj": {}, "kinds": {"vec-semantics", "double-drop", "drop-while-visible", "duplicate-visible", "drop-accounting"},
     "release_subset": lambda c: any("18446744073709551615" in l or "18446744073709551614" in l for l in c.lines),
     "rule": "a case builds a vector (len 0..L), runs one drain or splice instance (every valid (start,end) in every "
             "RangeBounds spelling, invalid ranges at the boundary and at usize::MAX, every next/next_back interleaving "
@@ -117,6 +118,8 @@ def gen_c03(tier, seed):
                 ops = ["clear 0", "pop 0 drop", "dropvec 0", "drain 0 u u e F:drop drop", "drain 0 i0 e%d e - drop" % min(L, 2)]
                 for i in sorted(set([0, L // 2, L - 1])):
                     ops += ["remove 0 %d drop" % i, "swapremove 0 %d drop" % i]
+                # a lazy clone whose `Clone` panics while `insert` has the tail moved away / `push` has made room
+                ops += ["insert 0 0 l1.1.2", "insert 0 %d l1.0.1" % (L // 2), "push 0 l1.0.1"]
                 for op in ops:
                     for f in (1, 2):
                         c = G.Case("ownf%d" % k, layout); k += 1
